@@ -24,7 +24,7 @@ class AV:
     __slots__ = ('k', 'c', 'p', 'dims', 'dt', 'items', 'elem', 'org', 'oid',
                  'label', 'pv', 'orth', 'lg', 'deg', 'unit', 'taint', 'lay',
                  'fn', 'env', 'self_', 'attrs', 'ext', 'keys', 'cls', 'src',
-                 'note', 'uninit', 'maybe_none', 'nonneg', 'normed', 'idx')
+                 'note', 'uninit', 'maybe_none', 'nonneg', 'normed', 'idx', 'lo')
 
     def __init__(self, k, **kw):
         self.k = k
@@ -58,6 +58,7 @@ class AV:
         self.nonneg = False
         self.normed = False
         self.idx = None
+        self.lo = None
         for a, v in kw.items():
             setattr(self, a, v)
         if k in ('list', 'dict', 'obj') and self.oid is None:
